@@ -1,3 +1,5 @@
+import os
+
 PROPERTY = "C09"
 LEVEL = "model_checking"
 FUNCTIONS = ["store_completed"]
@@ -23,14 +25,48 @@ BP_FP = {"dequeue": "stub_dequeue", "get_status": "stub_get_status",
          "get_worker_count": "stub_unreach_get_worker_count",
          "set_worker_ptr": "stub_unreach_set_worker_ptr"}
 
+def _bp_cases():
+    kinds = [("plain", "0", "SQFS_BLK_LAST_BLOCK"),
+             ("sparse", "SQFS_BLK_IS_SPARSE", "(SQFS_BLK_IS_COMPRESSED|SQFS_BLK_FIRST_BLOCK)")]
+    out = []
+    for kn, f0, f1 in kinds:
+        for n, g in ((0, -1), (1, -1), (1, 0), (2, -1), (2, 0), (2, 1)):
+            if kn == "sparse" and n == 0:
+                continue
+            out.append(dict(id="%s_n%d_g%s" % (kn, n, "x" if g < 0 else g),
+                            defines={"NB": 2, "NPOOL": n, "GIVEUP_AT": "(%d)" % g,
+                                     "FL0": f0, "FL1": f1}, tier="quick"))
+    return out
+
 HARNESSES = [
-    dict(name="bp_sync", file="bp_sync.c", label="bounded(blocks in pool <= 2)", unwind=5, timeout=600,
-         fp=BP_FP,
-         cases=[dict(id="nb2", defines={"NB": 2}, tier="quick")]),
-    dict(name="bp_t", file="bp_t.c", label="bounded(blocks in pool <= 2)", unwind=5, timeout=600,
-         fp=BP_FP, cases=[dict(id="nb2", defines={"NB": 2}, tier="quick")]),
+    dict(name="bp_dequeue_block", file="bp_dequeue_block.c",
+         label="bounded(blocks in pool <= 2)", unwind=5, timeout=600, fp=BP_FP,
+         # `flags & ~BLK_FLAG_INTERNAL`: the int constant ~0x10000000 is converted
+         # to sqfs_u32, which is defined behaviour; the conversion check flags it
+         nochecks=["--conversion-check"],
+         # native replay links the rest of the library from the in-tree build
+         native_libs=[os.path.join(os.environ.get("VERIF_REPO", "/repo"), ".libs/libsquashfs.a"),
+                      "-lz", "-llzma", "-llz4", "-lzstd", "-lbz2", "-lpthread"],
+         cases=_bp_cases()),
     dict(name="store_completed", file="store_completed.c", label=L2, timeout=600, cases=_k()),
     dict(name="get_next", file="get_next.c", label=L2, timeout=600, cases=_k()),
+    dict(name="try_dequeue", file="try_dequeue.c", label=L2, timeout=600, cases=_k()),
+    dict(name="submit", file="submit.c", label=L2, timeout=900, malloc_fail=True, weight=8,
+         cases=_k(t3="thorough")),
+    dict(name="dequeue", file="dequeue.c", label=L2, timeout=900, weight=8,
+         cases=_k(t3="thorough")),
+    dict(name="get_status", file="small.c", label=L2, timeout=600,
+         cases=_k({"OP_GET_STATUS": None}, {"OP_GET_STATUS": None})),
+    dict(name="set_worker_ptr", file="small.c", label=L2, timeout=600,
+         cases=_k({"OP_SET_WORKER_PTR": None}, {"OP_SET_WORKER_PTR": None})),
+    dict(name="destroy", file="destroy.c", label=L2, timeout=600,
+         flags=["--memory-leak-check"], cases=_k()),
+    dict(name="serial_submit", file="serial.c", label="bounded(list nodes <= 3)", timeout=600,
+         malloc_fail=True, defines={"OP_SUBMIT": None},
+         cases=[dict(id="k3", defines={"KQ": 3, "KR": 2}, unwind=7, tier="quick")]),
+    dict(name="serial_dequeue", file="serial.c", label="bounded(list nodes <= 3)", timeout=600,
+         fp={"fun": "stub_fun"}, defines={"OP_DEQUEUE": None},
+         cases=[dict(id="k3", defines={"KQ": 3, "KR": 2}, unwind=7, tier="quick")]),
     dict(name="worker_proc", file="worker_proc.c", label=L2, timeout=900,
          fp={"fun": "stub_fun"},
          cases=[dict(id="k2w0", defines=dict(K2, WIDX=0, MAXWAIT=0), unwind=8, label=L2, tier="quick"),
